@@ -4,12 +4,26 @@ import common, fns, sweeps, labelled
 from common import canon
 
 PROP = 'C03'
-LEAN_MODULES = ['XyzProofs.Props.C03', 'XyzProofs.Props.C03VarDims']
+LEAN_MODULES = ['XyzProofs.Props.C03', 'XyzProofs.Props.C03VarDims', 'XyzProofs.Refine.Forwarding', 'XyzProofs.Props.C03Df']
 THEOREMS = ['ToDs.c03_dims_coords', 'ToDs.c03_sel', 'ToDs.c03_constants_resources_attrs', 'ToDs.c03_df_rows',
             'Core.processNested_get', 'VarDims.applyItems_spec', 'VarDims.c03_vd_dict', 'VarDims.c03_vd_unknown_rejected',
             'VarDims.c03_vd_single_keys', 'VarDims.c03_vd_order_irrelevant', 'VarDims.c03_vd_group_dict', 'VarDims.c03_vd_corr',
-            'VarDims.c03_vd_str', 'VarDims.c03_vd_str_needs_single', 'VarDims.c03_vd_empty', 'VarDims.c03_vd_auto']
-ANCHORS = ['varDimsElemCorr', 'varDimsQuantAny', 'varDimsStrRefused']
+            'VarDims.c03_vd_str', 'VarDims.c03_vd_str_needs_single', 'VarDims.c03_vd_empty', 'VarDims.c03_vd_auto',
+            # argument forwarding of the labelled entry points, on the records translated from the source (anchors_flow)
+            'Forwarding.runner_init_stores', 'Forwarding.run_combos_forwards', 'Forwarding.run_cases_forwards',
+            'Forwarding.run_cases_fn_args', 'Forwarding.run_combos_constants', 'Forwarding.run_cases_constants',
+            'Forwarding.per_run_wins', 'Forwarding.run_keeps_descriptions', 'Forwarding.run_twice_constants',
+            'Forwarding.label_forwards', 'Forwarding.harvest_forwards', 'Forwarding.gen_cases_flow',
+            'Forwarding.sample_combos_flow', 'Forwarding.samplerCombos_value', 'Forwarding.keys_update',
+            'Forwarding.combo_to_ds_forwards', 'Forwarding.combo_to_ds_parses', 'Forwarding.case_to_ds_forwards',
+            'Forwarding.chain_run_combos', 'Forwarding.chain_run_cases',
+            # the DataFrame labelling on the translated loop of results_to_df and the translated run + info slice
+            'DfRefine.dfRows_refines', 'DfRefine.c03_df_rows_src', 'DfRefine.coreRunInfo_plain', 'DfRefine.coreRunInfo_shuffled',
+            'DfRefine.coreRunInfo_perm', 'DfRefine.toDf_src', 'DfRefine.toDf_refines', 'DfRefine.casesZip_refines',
+            'DfRefine.casesZip_get']
+ANCHORS = ['varDimsElemCorr', 'varDimsQuantAny', 'varDimsStrRefused',
+           'flowRunnerInit', 'flowRunCombos', 'flowRunCases', 'flowLabel', 'flowHarvestCombos', 'flowHarvestCases', 'flowGenCases',
+           'flowSampleCombos', 'flowComboToDs', 'flowCaseToDs', 'dfRows', 'coreRunInfo', 'casesZip']
 RULE = ("grids (1-3 args x 1-4 values) and case sets (+ optional sub-grid), 1-3 output variables with scalar / 1-d / 2-d "
         "array outputs whose internal dimensions come from var_coords or from a constant, constants that are / are not "
         "dimensions, resources, attrs, every spelling of var_names / var_dims, functions returning a Dataset with "
